@@ -862,9 +862,6 @@ def fock_sequence(draw, sim):
                               "p": {"theta": draw(progs.angle()),
                                     "mean_thermal_excitation": 0.0}})
             else:
-                if measured:
-                    excl.append(B_P_LOSSY_POSTSEL)
-                    continue
                 which = draw(st.sampled_from(["Loss", "UniformLoss", "UniformLoss",
                                               "LossyInterferometer"]))
                 if which == "Loss":
@@ -881,10 +878,9 @@ def fock_sequence(draw, sim):
                 steps.append({"k": "gate", "g": which, "modes": m, "p": p})
                 lossy = True
         elif kind == "measure":
-            if sim == "P" and (nmeas >= 1 or superposed or lossy):
+            if sim == "P" and (nmeas >= 1 or superposed):
                 excl.append("C03:exact:P:sequential-measurements:joint-weights"
-                            if nmeas else B_P_LOSSY_POSTSEL if lossy
-                            else "P:measurement-of-superposition-undocumented")
+                            if nmeas else "P:measurement-of-superposition-undocumented")
                 continue
             k = draw(st.integers(1, len(active) - 1))
             modes = draw(progs.ordered_modes(d, k, active))
@@ -894,9 +890,6 @@ def fock_sequence(draw, sim):
             measured = True
             nmeas += 1
         else:
-            if sim == "P" and lossy:
-                excl.append(B_P_LOSSY_POSTSEL)
-                continue
             k = draw(st.integers(1, len(active) - 1))
             modes = draw(progs.ordered_modes(d, k, active))
             photons = [draw(st.integers(0, 1)) for _ in modes]
